@@ -41,7 +41,8 @@ SPECIALS = [" ", "  ", "%s", "%d", "%(x)s", "{}", "{0}", "\\", "\\n", "\"", "'",
 SCENARIOS = ["client_ok", "client_bad", "raw_PASS_ok", "raw_pass_ok", "raw_PaSs_bad", "raw_out_of_sequence", "raw_relogin",
              "raw_user_limit", "raw_server_limit", "raw_errors_after_login", "raw_cut_in_pass", "client_ok_ops", "raw_slow_manager",
              "raw_failing_manager", "raw_close_while_logged_in", "client_timeout_in_pass", "raw_latin1_pass", "raw_pipelined_pass",
-             "raw_pass_no_newline", "client_failing_manager", "client_hangup_after_pass", "client_acct_first", "raw_long_pass_two_pieces", "client_narrow_encoding"]
+             "raw_pass_no_newline", "client_failing_manager", "client_hangup_after_pass", "client_acct_first", "raw_long_pass_two_pieces", "client_narrow_encoding",
+             "client_line_break"]
 
 
 def gen_password(rng):
@@ -194,6 +195,23 @@ async def scenario(net, hyg, name, password):
                 await c.quit()
             except Exception as e:
                 outcome.append(type(e).__name__)
+                c.close()
+        elif name == "client_line_break":
+            # a password with a line break in it, given to the client's login(): the line protocol cannot carry it, and what
+            # follows the break must not travel (and be handled, answered and logged on both sides) as a command of its own
+            k = max(1, len(password) // 3)
+            broken = password[:k] + ("\r\n" if len(password) % 2 else "\n") + password[k:]
+            c = aioftp.Client(path_io_factory=aioftp.MemoryPathIO)
+            await c.connect("127.0.0.1", 2121)
+            try:
+                await c.login("alice", broken)
+                outcome.append("ok")
+            except Exception as e:
+                outcome.append(type(e).__name__)
+            try:
+                await asyncio.wait_for(c.quit(), 5)
+            except Exception as e:
+                outcome.append("quit:" + type(e).__name__)
                 c.close()
         elif name == "client_acct_first":
             # a server that wants the account before the password (USER -> 332, ACCT -> 331, PASS -> 230 / 530), and one that
@@ -402,6 +420,8 @@ def run_case(case):
             else:
                 base_text = ""
             needle = pw.strip()     # what the line protocol really carries of a password with blanks at its ends
+            if name == "client_line_break":
+                needle = pw[max(1, len(pw) // 3):].strip()      # the part behind the break
             if len(needle) >= 4 and needle not in base_text:
                 mon["substring_search"] += 1
                 hits = [t for t in texts1 if needle in t]
